@@ -34,7 +34,59 @@ def routes(R, B, r, base, heavy=True):
                 out.append((f'boc{o}.slice', lambda o=o: B.Slice.one_from_boc(base.to_boc(*o)).to_cell()))
         out.append(('boc.builder', lambda: B.Builder.one_from_boc(base.to_boc()).end_cell()))
         out.append(('foreign_boc', lambda: B.Cell.one_from_boc(rc.encode_boc([r], has_crc=True))))
+        out.append(('foreign_boc_stored_hashes', lambda: B.Cell.one_from_boc(rc.encode_boc([r], has_idx=True, with_hashes=True))))
     return out
+
+
+def builder_reuse(R, B, r, W):
+    """end_cell, keep storing into the same builder, end_cell again: the first cell must still be the cell it was"""
+    b = B.Builder()
+    b.store_bits(r.bits)
+    kids = [bridge.to_lib(x) for x in r.refs]
+    for k in kids:
+        b.store_ref(k)
+    c1 = b.end_cell()
+    more = []
+    if len(r.bits) < 1023:
+        b.store_bit(1)
+        more.append('bit')
+    if len(r.refs) < 4:
+        b.store_ref(B.Builder().store_uint(7, 3).end_cell())
+        more.append('ref')
+    if more:
+        c2 = b.end_cell()
+        r2 = rc.RC(r.bits + ('1' if 'bit' in more else ''), list(r.refs) + ([rc.RC('111')] if 'ref' in more else []))
+        check_cell(R, r2, c2, 'builder-reuse-second', W)
+    check_cell(R, r, c1, 'builder-reuse-first', W)
+    R.count('builder_reuse')
+
+
+def forged_stored_hashes(R, B, r, rng, W):
+    """a bag of cells whose optional stored hash / depth block is untrue: the parser may refuse it, but a cell it returns must report
+    the hash and depth of its content"""
+    cells = gen.all_cells(r)
+    target = rng.randrange(len(cells))
+    what = rng.choice(['hash', 'depth'])
+
+    def forge(i, c, blob):
+        if i != target:
+            return blob
+        b = bytearray(blob)
+        nh = rc.popcount(c.mask) + 1
+        if what == 'hash':
+            b[2 + rng.randrange(32 * nh)] ^= 1 << rng.randrange(8)
+        else:
+            b[2 + 32 * nh + rng.randrange(2 * nh)] ^= 1 << rng.randrange(8)
+        return bytes(b)
+    data = rc.encode_boc([r], has_idx=rng.random() < 0.5, has_crc=rng.random() < 0.5, with_hashes=True, forge=forge)
+    st, c = mon.call(B.Cell.one_from_boc, data)
+    R.count('forged_stored_' + what)
+    if st == 'exc':
+        R.exc(c)
+        R.count('forged_stored_rejected')
+        return
+    R.count('forged_stored_parsed')
+    check_cell(R, r, c, f'boc-forged-stored-{what}', dict(W, forged_boc=data if len(data) < 2000 else None))
 
 
 def check_cell(R, r, c, route, W):
@@ -75,6 +127,12 @@ def one(R, B, r, heavy=True, sample=None):
                         dict(W, tb=traceback.format_exc()[-1500:]))
             continue
         check_cell(R, r, c, route, W)
+    if heavy and r.depth < 900:
+        st, e = mon.call(builder_reuse, R, B, r, W)
+        if st == 'exc':
+            R.violation(f'builder-reuse-raises-{type(e).__name__}', f'end_cell / store / end_cell on one builder raised {e!r}', W)
+        if len(gen.all_cells(r)) < 200:
+            forged_stored_hashes(R, B, r, R.rng, W)
     R.case(mon.fp('c', r.hash), sample=sample)
     R.cover('bitlens', len(r.bits))
     R.cover('refcounts', len(r.refs))
@@ -153,6 +211,7 @@ def run(R):
     rng = R.rng
     quick = R.tier == 'quick'
     inv = bridge.CellInvariant(R).install()
+    inv.retain = 20000
     R.rule = ('ordinary cells: every bit length 0..1023 x content patterns x 0..4 refs, random DAGs with sharing, chains to '
               'depth 1023; each pushed through every construction route; distinct = distinct spec hash of the root cell; '
               'non-trivial = all (no trivial cases: every cell is compared on hash, depth, content, recomputed representation)')
@@ -171,6 +230,16 @@ def run(R):
                 refs = [(leafs + [deep])[(n + j) % 5] for j in range(k)]
                 heavy = (not quick) or n % 8 in (0, 1, 7) or n > 1015 or n < 10
                 one(R, B, rc.RC(bits, refs), heavy=heavy, sample={'bits_len': n, 'pattern': pi, 'refs': k})
+                if n % 8 and pi < 3 and n < 1016:
+                    # the byte-aligned cell whose data equals this cell's tag-padded data (same padded bytes, other length): both must
+                    # live in one process, in both creation orders, so that a cache keyed by the padded bytes alone would collide
+                    padded = bits + '1' + '0' * (7 - n % 8)
+                    if (n + pi) % 2:
+                        one(R, B, rc.RC(padded, refs), heavy=False)
+                    else:
+                        one(R, B, rc.RC(padded, refs), heavy=False)
+                        one(R, B, rc.RC(bits, refs), heavy=False)
+                    R.count('tag_collision_siblings')
     # random DAGs with sharing
     for i in range(6 if quick else 20):
         r = gen.rand_dag(rng, rng.choice([5, 30, 120] if quick else [50, 400, 2000, 20000 // 4]))
@@ -182,11 +251,17 @@ def run(R):
     equality_pool(R, B, rng, 25 if quick else 150)
     if R.shard == 0:
         depth_limits(R, B, rng, full=not quick)
+    inv.revalidate('end of run')
     inv.uninstall()
     if R.nshards == 1 or R.shard == 0:
         R.floor('depth1023_built', 1)
         R.floor('depth1024_attempts', 2)
     R.floor('inv_cells', 1000)
+    R.floor('inv_revalidated', 1000)
+    R.floor('builder_reuse', 50)
+    R.floor('tag_collision_siblings', 100)
+    R.floor('forged_stored_hash', 10)
+    R.floor('forged_stored_depth', 10)
     R.floor('repr_hash_evals_with_refs', 100)
     R.floor('pairs_compared', 100)
     if R.nshards == 1:
